@@ -116,6 +116,11 @@ def handleSpecial (stream : String) (args : List String) : String :=
     | some bs => showRes (runS (fun a => Ice.turnPacket a (known = "1")) bs)
         (fun r => match r with | [_, 2, len] => s!"fwd {len}" | _ => "nofwd")
     | none => "bad-hex"
+  | "sharedtcp", [hx] =>
+    match unhex hx with
+    | some bs => showRes (runB Ice.sharedTcpFirstFrame bs) toString
+    | none => "bad-hex"
+  | "sharedtcp", [] => showRes (runB Ice.sharedTcpFirstFrame []) toString
   | "tcp4571", [bl, hx] =>
     match bl.toNat?, unhex hx with
     | some bl, some bs => showRes (runB (Ice.tcp4571Recv bl) bs) toString
